@@ -156,9 +156,9 @@ func stepCases(rng *rand.Rand, n int) {
 		for _, a := range asg {
 			switch rng.Intn(5) {
 			case 0, 1:
-				committed = append(committed, tpo{a.Topic, a.Partition, rng.Int63n(100)})
+				committed = append(committed, tpo{Topic: a.Topic, Partition: a.Partition, Offset: rng.Int63n(100)})
 			case 2:
-				committed = append(committed, tpo{a.Topic, a.Partition, -1})
+				committed = append(committed, tpo{Topic: a.Topic, Partition: a.Partition, Offset: -1})
 			case 3:
 				if rng.Intn(3) == 0 {
 					omit = append(omit, a)
@@ -225,50 +225,42 @@ func genLoop(rng *rand.Rand, sync bool, failures *int) []loopTok {
 	}
 	n := 1 + rng.Intn(4)
 	pendingStash := false
+	if !sync {
+		// interval mode, two deterministic shapes:
+		//  (A) no tick (CommitInterval 1h): several calls, then the final commit at generation end
+		//  (B) ticks (CommitInterval 15ms): one call, wait for the tick commits until one succeeds
+		//      (a failed commit keeps the stash: the next tick retries it), repeat
+		if rng.Intn(2) == 0 {
+			for k := 1 + rng.Intn(5); k > 0; k-- {
+				toks = append(toks, loopTok{kind: "c", msgs: randTPOs(rng, 1+rng.Intn(3), 6)})
+			}
+			toks = append(toks, loopTok{kind: "x"})
+			attempts(false)
+			return toks
+		}
+		for i := 0; i < n; i++ {
+			toks = append(toks, loopTok{kind: "c", msgs: randTPOs(rng, 1+rng.Intn(3), 6)})
+			for !attempts(false) || toks[len(toks)-1].out != 0 {
+			}
+		}
+		toks = append(toks, loopTok{kind: "x"})
+		return toks
+	}
 	for i := 0; i < n; i++ {
-		k := 1
-		if !sync {
-			k = 1 + rng.Intn(3)
+		m := randTPOs(rng, 1+rng.Intn(3), 6)
+		if rng.Intn(12) == 0 {
+			m = nil
 		}
-		for j := 0; j < k; j++ {
-			m := randTPOs(rng, 1+rng.Intn(3), 6)
-			if sync && rng.Intn(12) == 0 {
-				m = nil
-			}
-			toks = append(toks, loopTok{kind: "c", msgs: m})
-			if m != nil {
-				pendingStash = true
-			}
+		toks = append(toks, loopTok{kind: "c", msgs: m})
+		if m == nil {
+			continue // empty call: nil without a request
 		}
-		if sync {
-			if toks[len(toks)-1].msgs == nil {
-				continue // empty call: nil without a request
-			}
-			if !attempts(true) {
-				return toks
-			}
-			pendingStash = false
-		} else if rng.Intn(2) == 0 { // wait for a tick commit
-			ok := true
-			for k := 0; k < 3; k++ {
-				o := 0
-				if *failures > 0 && rng.Intn(3) == 0 {
-					o = codes[rng.Intn(len(codes))]
-					*failures--
-				}
-				toks = append(toks, loopTok{kind: "a", out: o})
-				ok = o == 0
-				if ok {
-					break
-				}
-			}
-			pendingStash = !ok
+		if !attempts(true) {
+			return toks
 		}
 	}
+	_ = pendingStash
 	toks = append(toks, loopTok{kind: "x"})
-	if !sync && pendingStash {
-		attempts(false)
-	}
 	return toks
 }
 
@@ -282,7 +274,15 @@ func runLoop(sync bool, toks []loopTok) (string, bool) {
 	c := &kafka.VerifC03Coord{Outcomes: outcomes, Seen: make(chan struct{}, 64)}
 	interval := time.Duration(0)
 	if !sync {
-		interval = 15 * time.Millisecond
+		interval = time.Hour
+		for _, t := range toks {
+			if t.kind == "x" {
+				break
+			}
+			if t.kind == "a" {
+				interval = 15 * time.Millisecond
+			}
+		}
 	}
 	l := kafka.VerifC03NewLoop(interval, c, 7, "m-1")
 	type ret struct {
@@ -881,7 +881,7 @@ func e2eCases(seed int64, n int) {
 	scs = append(scs, scen{name: "lastoffset-replay", sync: true, start: kafka.LastOffset, members: 1, topics: 1, parts: 1, scripted: "lastoffset"})
 	for i := 0; i < n; i++ {
 		sc := scen{sync: i%3 != 2, start: kafka.FirstOffset, members: 1 + i%3, topics: 1 + rng.Intn(2), parts: 1 + rng.Intn(3),
-			recs: 2 + rng.Intn(5), actions: 40 + rng.Intn(40), faults: i%2 == 1, rebal: i%4 != 0}
+			recs: 2 + rng.Intn(5), actions: 50 + rng.Intn(90), faults: i%2 == 1, rebal: i%4 != 0}
 		switch {
 		case !sc.rebal && !sc.faults:
 			sc.name = "plain"
@@ -895,7 +895,7 @@ func e2eCases(seed int64, n int) {
 		scs = append(scs, sc)
 	}
 	var wg sync.WaitGroup
-	sem := make(chan struct{}, 8)
+	sem := make(chan struct{}, 12)
 	for i, sc := range scs {
 		i, sc := i, sc
 		s := rng.Int63()
